@@ -41,10 +41,13 @@ Value& ERRORExpression::value(Context & ctx) const
   const RuntimeError& rt = ctx.error();
   Value& tmp = ctx.allocate(Value(new Tuple(empty_error())));
   if (rt.no == EXC_RT_USER_S)
-    tmp.tuple()->at(0) = Value(new Literal(rt.what()));
+    tmp.tuple()->at(0) = Value(new Literal(rt.arg()));
   else
     tmp.tuple()->at(0) = Value(new Literal(RuntimeError::THROWABLES[RuntimeError::throwable(rt.no)].keyword));
-  tmp.tuple()->at(1) = Value(new Literal(rt.what()));
+  if (rt.no == EXC_RT_USER_S)
+    tmp.tuple()->at(1) = Value(new Literal(rt.arg()));
+  else
+    tmp.tuple()->at(1) = Value(new Literal(rt.what()));
   tmp.tuple()->at(2) = Value(Integer(rt.no));
   return tmp;
 }
